@@ -451,6 +451,7 @@ impl<'tcx> Cx<'tcx> {
             ExprKind::LoopMatch { .. } => J::O(vec![("k", s("loopmatch"))]),
             ExprKind::Let { expr, pat } => J::O(vec![
                 ("k", s("letexpr")),
+                ("sty", s(self.ty_str(th[*expr].ty))),
                 ("pat", self.pat(pat)),
                 ("e", self.expr(owner, th, *expr)),
             ]),
